@@ -146,6 +146,43 @@ def big_hash(rep):
     return n
 
 
+def hepta(rep, prop):
+    """a seven-coordinate centre without descriptor whose same-element ligands differ in what they carry (Mo(CO)4(CN)3):
+    renamed / re-inserted copies are the same graph by construction, so they must compare equal (C01) and hash alike (C03)"""
+    import random
+    import stereomolgraph as smgmod
+    rnd = random.Random(common.seed() + 77)
+    n = 0
+    for cls in (smgmod.StereoMolGraph, smgmod.StereoCondensedReactionGraph, smgmod.MolGraph):
+        ref = None
+        for trial in range(8):
+            ids = rnd.sample(range(0, 400), 15)
+            mo, cs, tails = ids[0], ids[1:8], ids[8:15]
+            atoms = [(mo, "Mo")] + [(c, "C") for c in cs] + [(t, "O" if k < 4 else "N") for k, t in enumerate(tails)]
+            bonds = [(mo, c) for c in cs] + list(zip(cs, tails))
+            rnd.shuffle(atoms)
+            rnd.shuffle(bonds)
+            g = cls()
+            for a, e in atoms:
+                g.add_atom(a, e)
+            for a, b in bonds:
+                g.add_bond(b, a) if rnd.random() < 0.5 else g.add_bond(a, b)
+            n += 1
+            if ref is None:
+                ref = g
+                continue
+            try:
+                if prop == "C03" and hash(g) != hash(ref):
+                    rep.violation(f"C03|hash-differs-on-equal|hepta-coordinate|{cls.__name__}",
+                                  "two renamings of Mo(CO)4(CN)3 (seven-coordinate centre without descriptor) hash differently", {})
+                if prop == "C01" and not (g == ref and ref == g):
+                    rep.violation(f"C01|eq-miss|hepta-coordinate|{cls.__name__}",
+                                  "two renamings of Mo(CO)4(CN)3 (seven-coordinate centre without descriptor) compare unequal", {})
+            except Exception as e:
+                rep.violation(f"{prop}|raises|hepta-coordinate|{cls.__name__}|{type(e).__name__}", "== / hash raised on Mo(CO)4(CN)3", {})
+    return n
+
+
 HIGH_DEGREE_SRC = """
 import sys, resource
 cap = int(float(sys.argv[2]) * 2**30)
@@ -216,6 +253,8 @@ def run(prop, tier):
         tot["generated"] += wl["generated"]
     if prop == "C01":
         extra["high_degree_centre"] = high_degree(rep, tier)
+    if prop in ("C01", "C03"):
+        extra["hepta_coordinate_renamings"] = hepta(rep, prop)
     if prop in ("C01", "C02"):
         from . import vf2trace
         ve = vf2trace.collect_eq(prop, tier, rep, common.seed())
